@@ -1,14 +1,17 @@
 (* C19 property theorems: statements only, each closed by `exact`.
-   md5 is a parameter of the general theorems (identifier distinctness is a hypothesis there and is
-   PROVED for the generated step list: C19_generated_ids_distinct).  `steps`, `orm_schema`,
-   `base_schema`, `orm_gaps`, ... are regenerated from /repo on every run (Gen.v). *)
+   Part A: Migrator.get_steps for every step list.   Part B: THE CODE AS IT IS -- real_md5, the step list /
+   mappers regenerated from /repo, the PINNED history (corpus/C19/pinned_history.json) and code_variant (read
+   off migrate / the revision_id setter / open_database on every run; the correspondence check ties
+   Model.*_v code_variant to the implementation).  Part C: any variant with the repairs.  Part D: the
+   UNREPAIRED variant (the code before fix 8b3dae9): refutations that motivated the repairs, kept as
+   theorems about Model.migrate = migrate_v variant_none. *)
 From Coq Require Import List String Bool.
-From PAFC19 Require Import Syntax Gen Model Proofs Proofs2 Proofs3 Proofs4.
+From PAFC19 Require Import Syntax Gen Model Proofs Proofs2 Proofs3 Proofs4 Proofs5.
 Import ListNotations.
 Open Scope bool_scope.
 Open Scope list_scope.
 
-(* ---- exactly the missing steps, each once, in order (Migrator.get_steps, Revision.__sub__) ---- *)
+(* ================= A. exactly the missing steps, each once, in order ================= *)
 
 Theorem C19_missing_steps : forall (md5 : string -> string) (ss : list step) (k : nat),
   ids_distinct md5 ss -> revs_distinct md5 ss -> 1 <= k <= List.length ss ->
@@ -22,85 +25,120 @@ Theorem C19_unrecognised_all_steps : forall (md5 : string -> string) (ss : list 
   (forall r, In r (revisions ss) -> rev_id md5 r <> rid) -> get_steps md5 ss (Some rid) = ss.
 Proof. exact get_steps_unknown. Qed.
 
+(* ================= B. the code as it is ================= *)
+
 Theorem C19_generated_ids_distinct : ids_distinct real_md5 steps /\ revs_distinct real_md5 steps /\ steps <> [].
 Proof. exact generated_ids_distinct. Qed.
 
-(* a file stamped with the revision of the first k steps: the open executes exactly the statements of
-   the remaining steps, each once, in order; the session sees the current stamp; no row is touched *)
-Theorem C19_stamped_applies_missing_once : forall (md5 : string -> string) (ss : list step) (k : nat) (c : conn),
-  ids_distinct md5 ss -> revs_distinct md5 ss -> 1 <= k < List.length ss ->
-  d_rev (cur c) = RRow (Some (rev_id md5 (firstn k ss))) ->
-  stmts_of (snd (migrate md5 ss c)) = map fst (List.concat (skipn k ss))
-  /\ d_rev (cur (fst (migrate md5 ss c))) = RRow (Some (rev_id md5 ss))
-  /\ d_data (cur (fst (migrate md5 ss c))) = d_data (cur c).
-Proof. exact migrate_prefix. Qed.
+(* the three repairs are in the code (breaks the build when one is reverted) *)
+Theorem C19_code_has_repairs : v_commit code_variant && v_insert code_variant && v_stamp_new code_variant = true.
+Proof. exact code_has_repairs. Qed.
 
-(* ---- a file stamped current: the open changes nothing; fixed point for every later history ---- *)
+(* every id a RELEASED version stamped files with (pinned) is recognised and leaves exactly the later steps:
+   old steps were neither reworded, reordered nor merged *)
+Theorem C19_released_revisions_recognised : forall k : nat, k < List.length pinned_revision_ids ->
+  get_steps real_md5 steps (Some (nth k pinned_revision_ids "")) = skipn (S k) steps.
+Proof. exact released_revisions_recognised. Qed.
 
-Theorem C19_idempotent : forall (md5 : string -> string) (ss : list step) (c : conn),
-  ids_distinct md5 ss -> revs_distinct md5 ss -> d_rev (cur c) = RRow (Some (rev_id md5 ss)) ->
-  migrate md5 ss c = (c, [ESelectRev true]).
-Proof. exact migrate_current. Qed.
+Theorem C19_code_released_applies_missing_once : forall (k : nat) (c : conn),
+  k < List.length pinned_revision_ids -> S k < List.length steps ->
+  d_rev (cur c) = RRow (Some (nth k pinned_revision_ids "")) ->
+  stmts_of (snd (migrate_v real_md5 code_variant steps c)) = raw_stmts (skipn (S k) steps).
+Proof. exact code_released_applies_missing_once. Qed.
 
-Theorem C19_fixpoint_once_stamped : forall (md5 : string -> string) (orm : schema) (ss : list step) (h : list (list op)) (d : db),
-  ids_distinct md5 ss -> revs_distinct md5 ss -> d_rev d = RRow (Some (rev_id md5 ss)) ->
-  Forall (fun o => s_trace o = [ESelectRev true] /\ sr (s_open o) = sr d /\ sr (s_end o) = sr d /\ sr (s_disk o) = sr d)
-         (fst (run_history md5 orm ss (File d) h))
-  /\ exists d', snd (run_history md5 orm ss (File d) h) = File d' /\ sr d' = sr d.
-Proof. exact history_current. Qed.
+(* opening a file stamped current changes nothing and executes nothing *)
+Theorem C19_code_idempotent : forall c : conn, d_rev (cur c) = RRow (Some latest_id) ->
+  migrate_v real_md5 code_variant steps c = (c, [ESelectRev true]).
+Proof. exact code_idempotent. Qed.
 
-(* ---- "repeated opens reach a fixed point after the first": FULL statement refuted, PARTIAL proved ---- *)
-
-(* full statement, on the generated steps: false for the original schema without revision table *)
-Theorem C19_fixpoint_refuted :
-  exists d : db, ~ (forall o1 o2 f, run_history real_md5 orm_schema steps (File d) [[]; []] = ([o1; o2], f) ->
-                    stmts_of (s_trace o2) = [] /\ sr (s_disk o2) = sr (s_disk o1)).
-Proof. exact fixpoint_refuted. Qed.
-
-(* why, for every step list: without a commit the first open of a file without revision table is rolled
-   back entirely, except for an EMPTY revision table ... *)
-Theorem C19_first_open_rolled_back : forall (md5 : string -> string) (orm : schema) (ss : list step) (d : db) (ops : list op),
-  ss <> [] -> d_rev d = RNoTable -> ~ In OpCommit ops ->
-  snd (run_session md5 orm ss (File d) ops) = File (set_rev REmpty d).
-Proof. exact session_no_table_no_commit. Qed.
-
-(* ... and a file with an empty revision table is never stamped by any history whatsoever (commits
-   included): every open executes every statement of every step again *)
-Theorem C19_empty_table_never_stamped : forall (md5 : string -> string) (orm : schema) (ss : list step) (h : list (list op)) (d : db),
-  ss <> [] -> d_rev d = REmpty ->
-  Forall (fun o => stmts_of (s_trace o) = map fst (List.concat ss)) (fst (run_history md5 orm ss (File d) h))
-  /\ exists d', snd (run_history md5 orm ss (File d) h) = File d' /\ d_rev d' = REmpty.
-Proof. exact history_empty_table. Qed.
-
-Theorem C19_read_only_never_stamps : forall (md5 : string -> string) (orm : schema) (ss : list step) (ops : list op) (h : list (list op)) (d : db),
-  ss <> [] -> d_rev d = RNoTable -> ~ In OpCommit ops ->
-  exists d', snd (run_history md5 orm ss (File d) (ops :: h)) = File d' /\ d_rev d' = REmpty.
-Proof. exact history_read_only_never_stamps. Qed.
-
-(* partial: if the first session commits (file with a revision row, or without revision table), the file
-   is stamped current with the schema the session saw, and every later session is the identity on
-   schema and revision and executes nothing *)
-Theorem C19_fixpoint_partial : forall (md5 : string -> string) (orm : schema) (ss : list step) (d : db) (ops : list op) (h : list (list op)),
-  ids_distinct md5 ss -> revs_distinct md5 ss -> ss <> [] -> d_rev d <> REmpty -> In OpCommit ops ->
-  exists d1, snd (run_session md5 orm ss (File d) ops) = File d1
-    /\ d_rev d1 = RRow (Some (rev_id md5 ss))
-    /\ d_schema d1 = d_schema (s_open (fst (run_session md5 orm ss (File d) ops)))
+(* FULL fixed point after the first open: any file (any schema and revision-table state, or none), any
+   user operations (commit / write / rollback / none) in the first session *)
+Theorem C19_code_fixpoint : forall (f : file) (ops : list op) (h : list (list op)),
+  exists d1, snd (code_session f ops) = File d1
+    /\ d_rev d1 = RRow (Some latest_id)
+    /\ d_schema d1 = d_schema (s_open (fst (code_session f ops)))
     /\ Forall (fun o => s_trace o = [ESelectRev true] /\ sr (s_open o) = sr d1 /\ sr (s_end o) = sr d1 /\ sr (s_disk o) = sr d1)
-              (fst (run_history md5 orm ss (File d1) h))
-    /\ exists d2, snd (run_history md5 orm ss (File d1) h) = File d2 /\ sr d2 = sr d1.
-Proof. exact commit_then_fixpoint. Qed.
+              (fst (code_history (File d1) h))
+    /\ exists d2, snd (code_history (File d1) h) = File d2 /\ sr d2 = sr d1.
+Proof. exact code_fixpoint. Qed.
 
-(* ---- the model with the proposed repairs (Model.*_v; check_case uses the variant read off the code) ---- *)
+(* a new file gets the mappers' schema and the current stamp at once *)
+Theorem C19_code_new_file :
+  d_schema (s_disk (fst (code_session NoFile []))) = orm_schema
+  /\ d_rev (s_disk (fst (code_session NoFile []))) = RRow (Some latest_id)
+  /\ stmts_of (s_trace (fst (code_session NoFile []))) = [].
+Proof. exact code_new_file. Qed.
 
-(* variant_none IS the model all theorems above are about *)
-Theorem C19_variant_none_is_pinned_model : forall (md5 : string -> string) (orm : schema) (ss : list step) (h : list (list op)) (f : file),
-  run_history_v md5 variant_none orm ss f h = run_history md5 orm ss f h.
-Proof. exact run_history_v_none. Qed.
+(* every earlier revision reaches the current schema (`opened` = migrate_v real_md5 code_variant steps;
+   base_schema is the PINNED schema before the first step; finite family: every prefix) *)
+Theorem C19_reaches_current_stamped : forall k : nat, 1 <= k <= List.length steps ->
+  d_schema (cur (fst (opened (stamped_db base_schema k)))) = current_schema base_schema
+  /\ stmts_of (snd (opened (stamped_db base_schema k))) = raw_stmts (skipn k steps)
+  /\ ok_stmts_of (snd (opened (stamped_db base_schema k))) = raw_stmts (skipn k steps).
+Proof. exact reaches_current_stamped. Qed.
 
-(* FULL fixed point for a variant that commits in migrate and inserts the missing revision row: after the
-   first session on ANY file (any revision-table state, commit or no commit; a new file if new files are
-   stamped) the file is stamped current with the schema the session saw, and every further session
-   executes nothing and leaves schema and revision alone *)
+(* no stamp (no revision table / empty table / NULL row) at a schema below exact_upto: every statement is
+   attempted, exactly those of the missing steps take effect, the session sees the current schema *)
+Theorem C19_reaches_current_unstamped : forall (k : nat) (r : rev), k < exact_upto -> k <= List.length steps -> unstamped r ->
+  d_schema (cur (fst (opened (unstamped_db base_schema k r)))) = current_schema base_schema
+  /\ ok_stmts_of (snd (opened (unstamped_db base_schema k r))) = raw_stmts (skipn k steps)
+  /\ stmts_of (snd (opened (unstamped_db base_schema k r))) = raw_stmts steps.
+Proof. exact reaches_current_unstamped. Qed.
+
+(* REFUTED beyond that bound (the one recorded finding): at revision exact_upto -- the rename step -- a
+   statement of an already applied step takes effect again on an unstamped file ... *)
+Theorem C19_reaches_current_unstamped_refuted :
+  Nat.leb exact_upto (List.length steps) = true ->
+  negb (list_eqb String.eqb (ok_stmts_of (snd (opened (unstamped_db base_schema exact_upto RNoTable))))
+                            (raw_stmts (skipn exact_upto steps))) = true.
+Proof. exact exact_upto_sharp. Qed.
+
+Theorem C19_unstamped_current_unchanged_refuted :
+  d_schema (cur (fst (opened (mkdb orm_schema RNoTable 0)))) <> orm_schema
+  /\ ok_stmts_of (snd (opened (unstamped_db base_schema n_steps RNoTable))) <> [].
+Proof. exact created_file_changed_by_reopen. Qed.
+
+(* ... PARTIAL: nothing the mappers / the current schema need is lost, at any revision and stamp state *)
+Theorem C19_unstamped_current_partial :
+  forallb (fun r => covers (d_schema (cur (fst (opened (unstamped_db base_schema n_steps r))))) (current_schema base_schema)
+                    && covers (d_schema (cur (fst (opened (mkdb orm_schema r 0))))) orm_schema) unstamped_revs = true.
+Proof. exact unstamped_current_covers_b. Qed.
+
+Theorem C19_opened_file_covers_mappers :
+  forallb (fun k => forallb (fun r => covers (d_schema (disk (fst (opened (unstamped_db base_schema k r))))) orm_schema
+                                     || negb (v_commit code_variant)) unstamped_revs)
+          (seq 0 (S (List.length steps))) = true.
+Proof. exact opened_disk_covers_orm_b. Qed.
+
+(* the migrated schema provides everything the current mappers read and write (Base.metadata of this run
+   against the PINNED original schema / the PINNED schema of the repository's historical database) *)
+Theorem C19_reaches_orm : covers (current_schema base_schema) orm_schema = true.
+Proof. exact current_covers_orm. Qed.
+
+Theorem C19_artifact_reaches_orm : covers (run_steps_schema steps artifact_schema) orm_schema = true.
+Proof. exact artifact_covers_orm. Qed.
+
+(* existing fits stay readable: no row, table or column is lost by a migration, whatever the variant.
+   (Rows: by construction of the statement type -- the fail-closed parser admits no DROP / DELETE / UPDATE;
+   the oracle compares the row counts of every table and reads old fits back through the ORM.) *)
+Theorem C19_rows_preserved : forall (md5 : string -> string) (v : variant) (ss : list step) (c : conn),
+  d_data (cur (fst (migrate_v md5 v ss c))) = d_data (cur c)
+  /\ (work c = None -> d_data (disk (fst (migrate_v md5 v ss c))) = d_data (disk c)).
+Proof. exact migrate_any_keeps_data. Qed.
+
+Theorem C19_tables_preserved : forall (md5 : string -> string) (v : variant) (ss : list step) (c : conn) (t : string) (cols : list string),
+  lookup t (d_schema (cur c)) = Some cols ->
+  exists cols', lookup t (d_schema (cur (fst (migrate_v md5 v ss c)))) = Some cols' /\ List.length cols <= List.length cols'.
+Proof. exact migrate_any_keeps_tables. Qed.
+
+Theorem C19_columns_preserved : forall (s s' : schema) (st : stmt) (t : string) (cols : list string),
+  exec s st = Some s' -> lookup t s = Some cols ->
+  exists cols', lookup t s' = Some cols' /\ List.length cols <= List.length cols'
+                /\ forall c, In c cols -> In (renamed st t c) cols'.
+Proof. exact exec_preserves. Qed.
+
+(* ================= C. every variant that commits in migrate and inserts the missing row ================= *)
+
 Theorem C19_fixed_fixpoint : forall (md5 : string -> string) (v : variant), v_commit v = true -> v_insert v = true ->
   forall (orm : schema) (ss : list step) (f : file) (ops : list op) (h : list (list op)),
   ids_distinct md5 ss -> revs_distinct md5 ss -> ss <> [] -> (f = NoFile -> v_stamp_new v = true) ->
@@ -119,81 +157,51 @@ Theorem C19_fixed_applies_missing_once : forall (md5 : string -> string) (v : va
   stmts_of (snd (migrate_v md5 v ss c)) = map fst (List.concat (skipn k ss)).
 Proof. exact migrate_v_prefix. Qed.
 
-(* ---- every earlier revision reaches the current schema (generated steps; finite family) ---- *)
+(* ================= D. the UNREPAIRED variant (before 8b3dae9): why the repairs were needed ================= *)
 
-Theorem C19_reaches_current_stamped : forall k : nat, 1 <= k <= List.length steps ->
-  d_schema (cur (fst (opened (stamped_db base_schema k)))) = current_schema base_schema
-  /\ stmts_of (snd (opened (stamped_db base_schema k))) = raw_stmts (skipn k steps)
-  /\ ok_stmts_of (snd (opened (stamped_db base_schema k))) = raw_stmts (skipn k steps).
-Proof. exact reaches_current_stamped. Qed.
+Theorem C19_unrepaired_is_variant_none : forall (md5 : string -> string) (orm : schema) (ss : list step) (h : list (list op)) (f : file),
+  run_history_v md5 variant_none orm ss f h = run_history md5 orm ss f h.
+Proof. exact run_history_v_none. Qed.
 
-(* no stamp (no revision table / empty table / NULL row) at a schema below exact_upto: every statement is
-   attempted, exactly those of the missing steps take effect, the session sees the current schema *)
-Theorem C19_reaches_current_unstamped : forall (k : nat) (r : rev), k < exact_upto -> k <= List.length steps -> unstamped r ->
-  d_schema (cur (fst (opened (unstamped_db base_schema k r)))) = current_schema base_schema
-  /\ ok_stmts_of (snd (opened (unstamped_db base_schema k r))) = raw_stmts (skipn k steps)
-  /\ stmts_of (snd (opened (unstamped_db base_schema k r))) = raw_stmts steps.
-Proof. exact reaches_current_unstamped. Qed.
+(* the full fixed-point statement was false: two read-only opens of the original schema *)
+Theorem C19_unrepaired_fixpoint_refuted :
+  exists d : db, ~ (forall o1 o2 f, run_history real_md5 orm_schema steps (File d) [[]; []] = ([o1; o2], f) ->
+                    stmts_of (s_trace o2) = [] /\ sr (s_disk o2) = sr (s_disk o1)).
+Proof. exact fixpoint_refuted. Qed.
 
-(* ... and the bound is sharp: at revision exact_upto (generated; on the pinned tree = the current revision)
-   a statement of an already applied step takes effect again *)
-Theorem C19_reaches_current_unstamped_refuted :
-  Nat.leb exact_upto (List.length steps) = true ->
-  negb (list_eqb String.eqb (ok_stmts_of (snd (opened (unstamped_db base_schema exact_upto RNoTable))))
-                            (raw_stmts (skipn exact_upto steps))) = true.
-Proof. exact exact_upto_sharp. Qed.
+(* for every step list: without a commit the first open of a file without revision table was rolled back
+   entirely, except for an EMPTY revision table ... *)
+Theorem C19_unrepaired_first_open_rolled_back : forall (md5 : string -> string) (orm : schema) (ss : list step) (d : db) (ops : list op),
+  ss <> [] -> d_rev d = RNoTable -> ~ In OpCommit ops ->
+  snd (run_session md5 orm ss (File d) ops) = File (set_rev REmpty d).
+Proof. exact session_no_table_no_commit. Qed.
 
-(* no stamp at the CURRENT schema (every file made by create_all): "changes nothing" is refuted ... *)
-Theorem C19_unstamped_current_unchanged_refuted :
-  d_schema (cur (fst (opened (mkdb orm_schema RNoTable 0)))) <> orm_schema
-  /\ ok_stmts_of (snd (opened (unstamped_db base_schema n_steps RNoTable))) <> [].
-Proof. exact created_file_changed_by_reopen. Qed.
+(* ... and a file with an empty revision table was never stamped by any history whatsoever *)
+Theorem C19_unrepaired_empty_table_never_stamped : forall (md5 : string -> string) (orm : schema) (ss : list step) (h : list (list op)) (d : db),
+  ss <> [] -> d_rev d = REmpty ->
+  Forall (fun o => stmts_of (s_trace o) = map fst (List.concat ss)) (fst (run_history md5 orm ss (File d) h))
+  /\ exists d', snd (run_history md5 orm ss (File d) h) = File d' /\ d_rev d' = REmpty.
+Proof. exact history_empty_table. Qed.
 
-(* ... partial: nothing the mappers / the current schema need is lost *)
-Theorem C19_unstamped_current_partial :
-  forallb (fun r => covers (d_schema (cur (fst (opened (unstamped_db base_schema n_steps r))))) (current_schema base_schema)
-                    && covers (d_schema (cur (fst (opened (mkdb orm_schema r 0))))) orm_schema) unstamped_revs = true.
-Proof. exact unstamped_current_covers_b. Qed.
+Theorem C19_unrepaired_read_only_never_stamps : forall (md5 : string -> string) (orm : schema) (ss : list step) (ops : list op) (h : list (list op)) (d : db),
+  ss <> [] -> d_rev d = RNoTable -> ~ In OpCommit ops ->
+  exists d', snd (run_history md5 orm ss (File d) (ops :: h)) = File d' /\ d_rev d' = REmpty.
+Proof. exact history_read_only_never_stamps. Qed.
 
-(* ---- the migrated schema provides what the current mappers read and write ---- *)
-
-(* partial: all of Base.metadata except the generated list orm_gaps (full statement iff orm_gaps = []) *)
-Theorem C19_reaches_orm_partial : covers (current_schema base_schema) (remove_gaps orm_gaps orm_schema) = true.
-Proof. exact current_covers_orm_but_gaps. Qed.
-
-(* refuted part: every entry of orm_gaps is a mapper column the migrated schema lacks *)
-Theorem C19_reaches_orm_refuted :
-  forallb (fun g => negb (has_col (current_schema base_schema) g) && has_col orm_schema g) orm_gaps = true.
-Proof. exact orm_gaps_real. Qed.
-
-Theorem C19_artifact_reaches_orm_partial :
-  covers (run_steps_schema steps artifact_schema) (remove_gaps artifact_gaps orm_schema) = true \/ artifact_schema = [].
-Proof. exact artifact_covers_orm_but_gaps. Qed.
-
-Theorem C19_artifact_reaches_orm_refuted :
-  forallb (fun g => negb (has_col (run_steps_schema steps artifact_schema) g) && has_col orm_schema g) artifact_gaps = true.
-Proof. exact artifact_gaps_real. Qed.
-
-(* ---- existing fits stay readable: no row, table or column is ever lost by a migration ---- *)
-
-Theorem C19_rows_preserved : forall (md5 : string -> string) (ss : list step) (c : conn),
-  d_data (cur (fst (migrate md5 ss c))) = d_data (cur c) /\ d_data (disk (fst (migrate md5 ss c))) = d_data (disk c).
-Proof. exact migrate_keeps_data. Qed.
-
-Theorem C19_tables_preserved : forall (md5 : string -> string) (ss : list step) (c : conn) (t : string) (cols : list string),
-  lookup t (d_schema (cur c)) = Some cols ->
-  exists cols', lookup t (d_schema (cur (fst (migrate md5 ss c)))) = Some cols' /\ List.length cols <= List.length cols'.
-Proof. exact migrate_keeps_tables. Qed.
-
-Theorem C19_columns_preserved : forall (s s' : schema) (st : stmt) (t : string) (cols : list string),
-  exec s st = Some s' -> lookup t s = Some cols ->
-  exists cols', lookup t s' = Some cols' /\ List.length cols <= List.length cols'
-                /\ forall c, In c cols -> In (renamed st t c) cols'.
-Proof. exact exec_preserves. Qed.
+(* what did hold: a committing, rollback-free first session on a file with a revision row or without
+   revision table stamped it, and every later session was the identity *)
+Theorem C19_unrepaired_fixpoint_partial : forall (md5 : string -> string) (orm : schema) (ss : list step) (d : db) (ops : list op) (h : list (list op)),
+  ids_distinct md5 ss -> revs_distinct md5 ss -> ss <> [] -> d_rev d <> REmpty -> In OpCommit ops -> ~ In OpRollback ops ->
+  exists d1, snd (run_session md5 orm ss (File d) ops) = File d1
+    /\ d_rev d1 = RRow (Some (rev_id md5 ss))
+    /\ d_schema d1 = d_schema (s_open (fst (run_session md5 orm ss (File d) ops)))
+    /\ Forall (fun o => s_trace o = [ESelectRev true] /\ sr (s_open o) = sr d1 /\ sr (s_end o) = sr d1 /\ sr (s_disk o) = sr d1)
+              (fst (run_history md5 orm ss (File d1) h))
+    /\ exists d2, snd (run_history md5 orm ss (File d1) h) = File d2 /\ sr d2 = sr d1.
+Proof. exact commit_then_fixpoint. Qed.
 
 Print Assumptions C19_missing_steps.
-Print Assumptions C19_fixpoint_partial.
-Print Assumptions C19_empty_table_never_stamped.
+Print Assumptions C19_code_fixpoint.
+Print Assumptions C19_released_revisions_recognised.
 Print Assumptions C19_reaches_current_unstamped.
-Print Assumptions C19_fixpoint_refuted.
-Print Assumptions C19_fixed_fixpoint.
+Print Assumptions C19_unrepaired_fixpoint_refuted.
